@@ -16,6 +16,7 @@ import AdaptixModel.Conv.Convert
 import AdaptixProofs.Lemmas.ConvMain
 import AdaptixProofs.Lemmas.ConvRefuse
 import AdaptixProofs.Lemmas.ConvFacade
+import AdaptixProofs.Lemmas.ConvGeneric
 
 set_option linter.unusedSimpArgs false
 
@@ -912,5 +913,70 @@ theorem src_untouched_witness :
     | _ => rw [h] at hs; cases hs
 
 end Witnesses
+
+/-! ### field types of a parametrized generic model
+
+  "all pairs of models (… nested, generic)": which coercer a field pair gets is decided by the
+  field types, and for `C[a0, …]` these come out of `GenericResolver` (model:
+  `AdaptixModel/Conv/Generic.lean`).  The code takes a detour - the parameters of the field
+  hint in order of first appearance, the actuals collected in that order, Python's positional
+  subscription - and the theorems say that the detour is the plain simultaneous substitution
+  of the class's arguments for its type variables, in whatever order a hint mentions them. -/
+
+/-- **`_parametrize_by_dict` is the simultaneous substitution** of the dict's actuals for the
+    type variables of the hint - for every hint and every dict, independent of the order in
+    which the hint mentions the variables and of the order of the dict. -/
+theorem parametrize_eq_subst (m : List (Nat × Hint)) (tp : Hint) :
+    parametrizeByDict m tp = tp.subst (dictGetD m) :=
+  parametrizeByDict_eq_subst m tp
+
+/-- **substitution respects the order of appearance**: subscribing a hint with the images of its
+    own parameters (`__parameters__`, first appearance first) replaces every variable by its
+    own image - not by the image of the variable that holds the same position in some other
+    order (e.g. the order of `Generic[...]`). -/
+theorem subscript_respects_order_of_appearance (h : Hint) (σ : Nat → Hint) :
+    h.subscript (h.params.map σ) = h.subst σ :=
+  Hint.subscript_params_map h σ
+
+/-- the resolved members of `C[args]`: every field hint with the i-th declared variable of `C`
+    replaced by the i-th argument -/
+theorem generic_fields_by_substitution (d : GenericDecl) (args : List Hint) :
+    resolveFields d args =
+      d.hints.map (fun (k, tp) => (k, tp.subst (dictGetD (typeVarToActual d.declared args)))) := by
+  unfold resolveFields
+  apply List.map_congr_left
+  intro e _
+  obtain ⟨k, tp⟩ := e
+  simp only [parametrize_eq_subst]
+
+/-- … where the i-th declared variable stands for the i-th argument -/
+theorem declared_variable_gets_its_argument (declared : List Nat) (args : List Hint) (hnd : declared.Nodup)
+    (i : Nat) (hi : i < declared.length) (ha : i < args.length) :
+    dictGetD (typeVarToActual declared args) declared[i] = args[i] :=
+  typeVarToActual_get declared args hnd i hi ha
+
+/-- a hint without type variables is the field type as it stands -/
+theorem closed_hint_unchanged (m : List (Nat × Hint)) (tp : Hint) (hc : tp.vars = []) :
+    parametrizeByDict m tp = tp := by
+  rw [parametrize_eq_subst, Hint.subst_closed tp _ hc]
+
+/-- non-vacuity: `class G(Generic[T0, T1]): inverse: Dict[T1, T0]` as `G[int, str]` has
+    `inverse: Dict[str, int]` -/
+example :
+    resolveFields { declared := [0, 1], hints := [("inverse", .dict (.var 1) (.var 0))] }
+        [.ty (.leaf 1), .ty (.leaf 2)]
+      = [("inverse", .dict (.ty (.leaf 2)) (.ty (.leaf 1)))] := by decide
+
+/-- the order matters: collecting the actuals in the order of *declaration* (a plausible
+    simplification of `_parametrize_by_dict`) swaps the arguments of such a hint -/
+theorem decl_order_collection_differs :
+    ∃ (m : List (Nat × Hint)) (tp : Hint), parametrizeByDeclOrder m tp ≠ tp.subst (dictGetD m) :=
+  ⟨typeVarToActual [0, 1] [.ty (.leaf 1), .ty (.leaf 2)], .dict (.var 1) (.var 0), by decide⟩
+
+/-- nested generic model: `backward: Edge[T1, T0]` in `Graph[T0, T1]` -/
+example :
+    parametrizeByDict (typeVarToActual [0, 1] [.ty (.model 5 0), .ty (.model 6 0)])
+        (.app (.app (.cls 3) (.var 1)) (.var 0))
+      = .app (.app (.cls 3) (.ty (.model 6 0))) (.ty (.model 5 0)) := by decide
 
 end Adaptix.Conv13.C13
